@@ -95,6 +95,24 @@ func derivesFromParam(v ssa.Value, p *ssa.Parameter) bool {
 	return walk(v)
 }
 
+// derivesFromParamOrLen: v derives from p or from len(p).
+func derivesFromParamOrLen(v ssa.Value, p *ssa.Parameter) bool {
+	if derivesFromParam(v, p) {
+		return true
+	}
+	switch x := v.(type) {
+	case *ssa.Call:
+		if b, ok := x.Call.Value.(*ssa.Builtin); ok && b.Name() == "len" && len(x.Call.Args) == 1 {
+			return derivesFromParamOrLen(x.Call.Args[0], p)
+		}
+	case *ssa.Convert:
+		return derivesFromParamOrLen(x.X, p)
+	case *ssa.BinOp:
+		return derivesFromParamOrLen(x.X, p) || derivesFromParamOrLen(x.Y, p)
+	}
+	return false
+}
+
 // guardedByNilErr: every path to `in` carries "errOf(call) == nil".
 func guardedByNilErr(fn *ssa.Function, in ssa.Instruction, call *ssa.Call) bool {
 	ev := errResult(call)
@@ -194,6 +212,35 @@ func ruleR03_1(w *World, r *Report) {
 			}
 			r.Check(bad == "", cons, u.Pos(fn.Pos()), fmt.Sprintf("validated by %s before %s", calleeName(validates[0]), callNames(uses)),
 				"the position is used by "+bad+" on a path that has not passed the error-free edge of a validate* call")
+			// range clause: a method that addresses several existing elements (a count or a list of values next to
+			// the position) validates the whole range, not only its first position. Inserts address one position only.
+			isInsert := false
+			for _, c := range uses {
+				if strings.Contains(calleeName(c), "Insert") {
+					isInsert = true
+				}
+			}
+			var cnt *ssa.Parameter
+			for _, p := range fn.Params[1:] {
+				if p == pos {
+					continue
+				}
+				if _, isSlice := p.Type().Underlying().(*types.Slice); isSlice || isIntegral(p.Type()) {
+					cnt = p
+				}
+			}
+			if cnt != nil && !isInsert {
+				covered := false
+				for _, v := range validates {
+					for _, a := range v.Call.Args {
+						if derivesFromParamOrLen(a, cnt) {
+							covered = true
+						}
+					}
+				}
+				r.Check(covered, dt+"."+m.Name()+"/range", u.Pos(fn.Pos()), "the validate* call also receives the number of addressed elements",
+					"the method addresses a range of existing elements (position and "+cnt.Name()+") but validates the position only: a range that starts inside and runs past the end is not refused before the operation is executed")
+			}
 		}
 	}
 }
@@ -506,6 +553,19 @@ func ruleR03_4(w *World, r *Report) {
 			r.Check(good, "TransactionDatatype.SentenceInTx/append-after-local-execute", u.Pos(a.Pos()), "append only when err == nil",
 				"an operation whose local execution failed is still appended to the transaction buffer (it would be pushed and replayed)")
 		}
+	}
+	// a remote operation is recorded in the transaction buffer as well: EndTransaction moves the buffer to the
+	// replay list of the next rollback, which would otherwise lose every operation received since the rollback point
+	for _, c := range callsNamed(fn, "executeRemoteBase") {
+		follows, _ := mustReach(c.(ssa.Instruction), func(in ssa.Instruction) bool {
+			ci, ok := in.(ssa.CallInstruction)
+			if !ok || calleeName(ci) != "appendOperation" {
+				return false
+			}
+			return true
+		}, false)
+		r.Check(follows, "TransactionDatatype.SentenceInTx/append-after-remote-execute", u.Pos(c.Pos()), "a remote operation is appended to the transaction buffer on every path",
+			"an operation applied from remote is not appended to the transaction buffer: it is never recorded for replay, so the next rollback (restore snapshot, replay recorded operations) silently drops it")
 	}
 	if n == 0 {
 		r.Lost("SentenceInTx: an append reached through the local execution")
